@@ -249,6 +249,19 @@ def _check_object(case):
                     same = (va is None and vb is None) or (va is not None and vb is not None and np.array_equal(np.asarray(va), np.asarray(vb)))
                     if not same:
                         fails.append({"site": f"save/load does not preserve a field [{name}]", "msg": f"{letters}: {k}", "data": dict(letters, field=k)})
+            # a DIFFERENT solution saved under the same file name must be what the next load returns
+            from cardillo.solver import Solution
+
+            m = max(1, nt // 2) if nt else 0
+            short = Solution(system, np.asarray(sol.t)[:m], np.asarray(sol.q)[:m], u=None if sol.u is None else np.asarray(sol.u)[:m])
+            try:
+                short.save(path)
+                back2 = load_solution(path)
+                ok2 = len(back2.t) == m and np.array_equal(np.asarray(back2.q), np.asarray(sol.q)[:m])
+            except Exception as e:
+                ok2 = False
+            if not ok2:
+                fails.append({"site": f"loading a file that was overwritten returns stale data [{name}]", "msg": f"{letters}", "data": letters})
     finally:
         try:
             if os.path.exists(path):
